@@ -498,6 +498,7 @@ func C09(c *wk.Ctx) {
 			u.AddFail(o.fail)
 		}
 		u.Hash("unit_digest", unitDigest^uint64(run)<<40)
+		u.Observe("digest", fmt.Sprintf("%016x", unitDigest))
 		c.Emit(u)
 		if stop {
 			c.Stop()
